@@ -26,7 +26,10 @@ type c04Int struct {
 	Signed bool
 }
 
-type c04Struct struct{ F []any }
+type c04Struct struct {
+	F    []any
+	Type string // "pkgpath.Name" for named struct types
+}
 
 type c04Cell struct{ V any }
 
@@ -47,6 +50,28 @@ type c04SymV struct{ T *c04T }
 
 type c04Nil struct{}
 
+// c04Closure is a function value with its bound free variables.
+type c04Closure struct {
+	Fn   *ssa.Function
+	Bind []any
+}
+
+// c04Map is a map with constant keys (package-level lookup tables).
+type c04Map struct {
+	M       map[string]any
+	Unknown bool // written with a non-constant key
+}
+
+// c04Slice is a slice of a known backing array.
+type c04Slice struct {
+	Ptr c04Ptr // the backing array
+	Lo  int
+	Len int
+}
+
+// c04PathDead ends the evaluation of one path (panic reached): not an error.
+type c04PathDead struct{ Why string }
+
 type c04Tuple []any
 
 type c04Eval struct {
@@ -60,8 +85,25 @@ type c04Eval struct {
 	Resolve func(*c04T) (any, bool)
 	// Outer gives the value of an SSA value defined outside an evaluated region.
 	Outer func(ssa.Value) (any, bool)
-	steps int
-	depth int
+	// Tolerant: instructions the evaluator does not model yield unknown symbolic values / are skipped
+	// instead of aborting (abstract interpretation of initialisers and of whole entry points).
+	Tolerant bool
+	// GlobalCells: the package-level variables as left by an evaluated init (shared store).
+	GlobalCells map[*ssa.Global]*c04Cell
+	// Opaque callees are not entered: their results are symbolic applications. With
+	// OpaqueErrNil their error results are nil (the success path is followed).
+	Opaque       func(*ssa.Function) bool
+	OpaqueErrNil bool
+	// Decide chooses the outcome of a branch whose condition stays symbolic (path exploration).
+	Decide func(cond *c04T) (bool, bool)
+	// RootBind: the values bound to the free variables of the function given to Run (a closure / method value).
+	RootBind []any
+	// Targets resolves a call through an interface to its single implementation, if any.
+	Targets func(ssa.CallInstruction) []*ssa.Function
+	// ArgTerm may name a non-scalar argument of an opaque call (e.g. a table value).
+	ArgTerm func(v any) (*c04T, bool)
+	steps   int
+	depth   int
 }
 
 type c04EvalError struct{ msg string }
@@ -79,11 +121,15 @@ func (ev *c04Eval) Run(fn *ssa.Function, args []any) (res any, err error) {
 				err = e
 				return
 			}
+			if d, ok := x.(*c04PathDead); ok {
+				res, err = d, nil
+				return
+			}
 			panic(x)
 		}
 	}()
 	ev.steps = 0
-	return ev.call(fn, args), nil
+	return ev.callBound(fn, args, ev.RootBind), nil
 }
 
 func c04IntOf(t types.Type) (bits uint, signed bool, ok bool) {
@@ -149,11 +195,20 @@ func c04Zero(t types.Type) any {
 			return c04MkInt(t, 0)
 		}
 	case *types.Struct:
-		s := &c04Struct{}
+		s := &c04Struct{Type: namedKey(t)}
 		for i := 0; i < u.NumFields(); i++ {
 			s.F = append(s.F, c04Zero(u.Field(i).Type()))
 		}
 		return s
+	case *types.Array:
+		if u.Len() > 4096 {
+			break
+		}
+		a := &c04Struct{}
+		for i := int64(0); i < u.Len(); i++ {
+			a.F = append(a.F, c04Zero(u.Elem()))
+		}
+		return a
 	case *types.Pointer, *types.Map, *types.Slice, *types.Interface, *types.Chan, *types.Signature:
 		return c04Nil{}
 	}
@@ -240,6 +295,9 @@ func (ev *c04Eval) get(fr *c04Frame, v ssa.Value) any {
 	case *ssa.Const:
 		return c04ConstVal(x)
 	case *ssa.Global:
+		if c, ok := ev.GlobalCells[x]; ok {
+			return c04Ptr{Cell: c}
+		}
 		if g, ok := ev.Globals[x]; ok {
 			return c04Ptr{Cell: &c04Cell{V: g}}
 		}
@@ -284,12 +342,14 @@ func c04storeIn(v any, path []int, nv any) any {
 	if !ok || path[0] >= len(s.F) {
 		return c04Poison{"store through non-struct"}
 	}
-	cp := &c04Struct{F: append([]any(nil), s.F...)}
+	cp := &c04Struct{F: append([]any(nil), s.F...), Type: s.Type}
 	cp.F[path[0]] = c04storeIn(s.F[path[0]], path[1:], nv)
 	return cp
 }
 
-func (ev *c04Eval) call(fn *ssa.Function, args []any) any {
+func (ev *c04Eval) call(fn *ssa.Function, args []any) any { return ev.callBound(fn, args, nil) }
+
+func (ev *c04Eval) callBound(fn *ssa.Function, args []any, bind []any) any {
 	if len(fn.Blocks) == 0 {
 		return c04Poison{"external function " + fn.String()}
 	}
@@ -306,8 +366,12 @@ func (ev *c04Eval) call(fn *ssa.Function, args []any) any {
 			fr.vals[p] = c04Poison{"parameter " + p.Name()}
 		}
 	}
-	for _, fv := range fn.FreeVars {
-		fr.vals[fv] = c04Poison{"free variable " + fv.Name()}
+	for i, fv := range fn.FreeVars {
+		if i < len(bind) {
+			fr.vals[fv] = bind[i]
+		} else {
+			fr.vals[fv] = c04Poison{"free variable " + fv.Name()}
+		}
 	}
 	return ev.exec(fr, fn.Blocks[0], nil, nil)
 }
@@ -384,6 +448,15 @@ func (ev *c04Eval) exec(fr *c04Frame, b, prev *ssa.BasicBlock, stop *ssa.If) any
 					}
 				}
 				bv, ok := c.(bool)
+				if !ok && ev.Decide != nil {
+					ct, okT := c04ValTerm(c)
+					if !okT {
+						ct = c04Unknown(c04Describe(c))
+					}
+					if dv, okD := ev.Decide(ct); okD {
+						bv, ok = dv, true
+					}
+				}
 				if !ok {
 					c04fail("%s: branch on a non-constant (%v)", fn.Name(), c04Describe(c))
 				}
@@ -407,7 +480,18 @@ func (ev *c04Eval) exec(fr *c04Frame, b, prev *ssa.BasicBlock, stop *ssa.If) any
 				}
 				return t
 			case *ssa.Panic:
+				if ev.Tolerant {
+					panic(&c04PathDead{fn.Name() + " panics"})
+				}
 				c04fail("%s: reaches a panic", fn.Name())
+			case *ssa.MapUpdate:
+				if m, ok := ev.get(fr, x.Map).(*c04Map); ok {
+					if k, ok := c04MapKey(ev.get(fr, x.Key)); ok {
+						m.M[k] = ev.get(fr, x.Value)
+					} else {
+						m.Unknown = true
+					}
+				}
 			case *ssa.Store:
 				a := ev.get(fr, x.Addr)
 				p, ok := a.(c04Ptr)
@@ -425,6 +509,9 @@ func (ev *c04Eval) exec(fr *c04Frame, b, prev *ssa.BasicBlock, stop *ssa.If) any
 			default:
 				// Go, Defer, Send, MapUpdate, RunDefers...: not foldable
 				if _, ok := in.(*ssa.RunDefers); ok {
+					continue
+				}
+				if ev.Tolerant {
 					continue
 				}
 				c04fail("%s: unsupported instruction %T", fn.Name(), in)
@@ -488,6 +575,8 @@ func (ev *c04Eval) value(fr *c04Frame, v ssa.Value) any {
 					return ev.mk(&c04T{Op: "load", Name: sv.T.Name, Args: sv.T.Args})
 				case "addr-global":
 					return ev.mk(&c04T{Op: "global", Name: sv.T.Name})
+				case "indexaddr":
+					return ev.mk(&c04T{Op: "index", Args: sv.T.Args})
 				}
 				return ev.mk(&c04T{Op: "deref", Args: []*c04T{sv.T}})
 			}
@@ -564,8 +653,17 @@ func (ev *c04Eval) value(fr *c04Frame, v ssa.Value) any {
 	case *ssa.Call:
 		if b, ok := x.Call.Value.(*ssa.Builtin); ok {
 			if b.Name() == "len" && len(x.Call.Args) == 1 {
-				if s, ok := ev.get(fr, x.Call.Args[0]).(string); ok {
-					return c04MkInt(x.Type(), uint64(len(s)))
+				switch a := ev.get(fr, x.Call.Args[0]).(type) {
+				case string:
+					return c04MkInt(x.Type(), uint64(len(a)))
+				case c04Slice:
+					return c04MkInt(x.Type(), uint64(a.Len))
+				case *c04Map:
+					if !a.Unknown {
+						return c04MkInt(x.Type(), uint64(len(a.M)))
+					}
+				case c04SymV:
+					return ev.mk(&c04T{Op: "builtin:len", Args: []*c04T{a.T}})
 				}
 			}
 			if (b.Name() == "min" || b.Name() == "max") && len(x.Call.Args) > 0 {
@@ -586,10 +684,45 @@ func (ev *c04Eval) value(fr *c04Frame, v ssa.Value) any {
 					return best
 				}
 			}
+			if ev.Tolerant {
+				var targs []*c04T
+				for _, a := range x.Call.Args {
+					at, ok := c04ValTerm(ev.get(fr, a))
+					if !ok {
+						at = c04Unknown("value")
+					}
+					targs = append(targs, at)
+				}
+				return c04SymV{T: &c04T{Op: "builtin:" + b.Name(), Args: targs}}
+			}
 			return c04Poison{"builtin " + b.Name()}
 		}
 		callee := staticCallee(x)
-		if callee == nil || x.Call.IsInvoke() {
+		var bind []any
+		if callee == nil && !x.Call.IsInvoke() {
+			// a call through a function value: a function or a closure held in a variable, a table, a field
+			switch fv := ev.get(fr, x.Call.Value).(type) {
+			case *ssa.Function:
+				callee = origin(fv)
+			case c04Closure:
+				callee, bind = fv.Fn, fv.Bind
+			}
+		} else if mc, ok := x.Call.Value.(*ssa.MakeClosure); ok && callee != nil {
+			if cv, ok := ev.get(fr, mc).(c04Closure); ok {
+				bind = cv.Bind
+			}
+		}
+		var recvArg []any
+		if x.Call.IsInvoke() && ev.Targets != nil {
+			if tg := ev.Targets(x); len(tg) == 1 {
+				callee = tg[0]
+				recvArg = []any{ev.get(fr, x.Call.Value)}
+			}
+		}
+		if callee == nil || (x.Call.IsInvoke() && recvArg == nil) {
+			if ev.Tolerant {
+				return c04SymV{T: c04Unknown("dynamic call")}
+			}
 			return c04Poison{"dynamic call"}
 		}
 		if ev.InModule == nil || !ev.InModule(callee) {
@@ -622,6 +755,30 @@ func (ev *c04Eval) value(fr *c04Frame, v ssa.Value) any {
 					return strings.TrimPrefix(sargs[0], sargs[1])
 				}
 			}
+			if callee.Pkg != nil && callee.Pkg.Pkg.Path() == "slices" && (callee.Name() == "Contains" || callee.Name() == "Index") && len(x.Call.Args) == 2 {
+				if sl, ok := ev.get(fr, x.Call.Args[0]).(c04Slice); ok {
+					if arr, ok := c04load(sl.Ptr).(*c04Struct); ok {
+						want := ev.get(fr, x.Call.Args[1])
+						idx, allK := -1, true
+						for i := 0; i < sl.Len && sl.Lo+i < len(arr.F); i++ {
+							eq, isB := c04BinOp(token.EQL, arr.F[sl.Lo+i], want, nil).(bool)
+							if !isB {
+								allK = false
+								break
+							}
+							if eq && idx < 0 {
+								idx = i
+							}
+						}
+						if allK {
+							if callee.Name() == "Contains" {
+								return idx >= 0
+							}
+							return c04MkInt(x.Type(), uint64(int64(idx)))
+						}
+					}
+				}
+			}
 			// any other function without a body in the module: a symbolic application
 			var targs []*c04T
 			allOK := true
@@ -636,16 +793,143 @@ func (ev *c04Eval) value(fr *c04Frame, v ssa.Value) any {
 			if allOK {
 				return ev.mk(c04ExtCallTerm(callee, targs))
 			}
+			if ev.Tolerant {
+				return c04SymV{T: c04Unknown("call to " + callee.String())}
+			}
 			return c04Poison{"call to " + callee.String()}
 		}
-		if _, isClosure := x.Call.Value.(*ssa.MakeClosure); isClosure {
-			return c04Poison{"closure call"}
-		}
-		var args []any
+		args := append([]any(nil), recvArg...)
 		for _, a := range x.Call.Args {
 			args = append(args, ev.get(fr, a))
 		}
-		return ev.call(callee, args)
+		if ev.Opaque != nil && ev.Opaque(callee) {
+			// a role the caller wants to see as an application, not entered
+			var targs []*c04T
+			for _, a := range args {
+				at, ok := c04ValTerm(a)
+				if !ok && ev.ArgTerm != nil {
+					at, ok = ev.ArgTerm(a)
+				}
+				if !ok {
+					at = c04Unknown("value")
+				}
+				targs = append(targs, at)
+			}
+			ct := &c04T{Op: "call", Name: callee.Name(), Args: targs, Src: x}
+			res := callee.Signature.Results()
+			if res.Len() == 1 {
+				return c04SymV{T: ct}
+			}
+			var tup c04Tuple
+			for i := 0; i < res.Len(); i++ {
+				if ev.OpaqueErrNil && types.Identical(res.At(i).Type(), types.Universe.Lookup("error").Type()) {
+					tup = append(tup, c04Nil{})
+				} else {
+					tup = append(tup, c04SymV{T: &c04T{Op: "extract", K: int64(i), IsK: true, Args: []*c04T{ct}}})
+				}
+			}
+			return tup
+		}
+		return ev.callBound(callee, args, bind)
+	case *ssa.MakeClosure:
+		var bind []any
+		for _, b := range x.Bindings {
+			bind = append(bind, ev.get(fr, b))
+		}
+		return c04Closure{Fn: x.Fn.(*ssa.Function), Bind: bind}
+	case *ssa.MakeMap:
+		return &c04Map{M: map[string]any{}}
+	case *ssa.Lookup:
+		m := ev.get(fr, x.X)
+		k := ev.get(fr, x.Index)
+		if mm, ok := m.(*c04Map); ok && !mm.Unknown {
+			if ks, ok := c04MapKey(k); ok {
+				val, found := mm.M[ks]
+				if !found {
+					val = c04Zero(x.Type())
+					if tt, ok := x.Type().(*types.Tuple); ok {
+						val = c04Zero(tt.At(0).Type())
+					}
+				}
+				if x.CommaOk {
+					return c04Tuple{val, found}
+				}
+				return val
+			}
+		}
+		if _, isNil := m.(c04Nil); isNil {
+			// lookup in a nil map finds nothing
+			if x.CommaOk {
+				return c04Tuple{c04Zero(x.Type().(*types.Tuple).At(0).Type()), false}
+			}
+			return c04Zero(x.Type())
+		}
+		mt, ok1 := c04ValTerm(m)
+		kt, ok2 := c04ValTerm(k)
+		if ok1 && ok2 {
+			lt := &c04T{Op: "lookup", Args: []*c04T{mt, kt}}
+			if x.CommaOk {
+				return c04SymV{T: lt}
+			}
+			return ev.mk(lt)
+		}
+		if ev.Tolerant {
+			return c04SymV{T: c04Unknown("map lookup")}
+		}
+		return c04Poison{"map lookup"}
+	case *ssa.IndexAddr:
+		base := ev.get(fr, x.X)
+		idx, isK := ev.get(fr, x.Index).(c04Int)
+		switch b := base.(type) {
+		case c04Ptr: // pointer to array
+			if isK {
+				return c04Ptr{Cell: b.Cell, Path: append(append([]int(nil), b.Path...), int(idx.V)), Names: append(append([]string(nil), b.Names...), "[]")}
+			}
+		case c04Slice:
+			if isK && int(idx.V) < b.Len {
+				return c04Ptr{Cell: b.Ptr.Cell, Path: append(append([]int(nil), b.Ptr.Path...), b.Lo+int(idx.V)), Names: append(append([]string(nil), b.Ptr.Names...), "[]")}
+			}
+		}
+		bt, ok1 := c04ValTerm(base)
+		it, ok2 := c04ValTerm(ev.get(fr, x.Index))
+		if ok1 && ok2 {
+			return c04SymV{T: &c04T{Op: "indexaddr", Args: []*c04T{bt, it}}}
+		}
+		if ev.Tolerant {
+			return c04SymV{T: c04Unknown("element address")}
+		}
+		return c04Poison{"element address"}
+	case *ssa.Index:
+		base := ev.get(fr, x.X)
+		idx, isK := ev.get(fr, x.Index).(c04Int)
+		if a, ok := base.(*c04Struct); ok && isK && int(idx.V) < len(a.F) {
+			return a.F[idx.V]
+		}
+		if ev.Tolerant {
+			return c04SymV{T: c04Unknown("element")}
+		}
+		return c04Poison{"element"}
+	case *ssa.Slice:
+		base := ev.get(fr, x.X)
+		if p, ok := base.(c04Ptr); ok && x.Low == nil && x.High == nil {
+			if arr, ok := c04load(p).(*c04Struct); ok {
+				return c04Slice{Ptr: p, Lo: 0, Len: len(arr.F)}
+			}
+		}
+		if bt, ok := c04ValTerm(base); ok {
+			return c04SymV{T: &c04T{Op: "slice", Args: []*c04T{bt}}}
+		}
+		if ev.Tolerant {
+			return c04SymV{T: c04Unknown("slice")}
+		}
+		return c04Poison{"slice"}
+	case *ssa.TypeAssert:
+		if ev.Tolerant {
+			return c04SymV{T: c04Unknown("type assertion")}
+		}
+	}
+	if ev.Tolerant {
+		return c04SymV{T: c04Unknown(fmt.Sprintf("%T", v))}
 	}
 	return c04Poison{fmt.Sprintf("%T", v)}
 }
@@ -779,4 +1063,71 @@ func c04BinOp(op token.Token, a, b any, rt types.Type) any {
 		}
 	}
 	return c04Poison{"binary " + op.String() + " on non-constants"}
+}
+
+// c04MapKey: a constant map key as a string.
+func c04MapKey(k any) (string, bool) {
+	switch x := k.(type) {
+	case string:
+		return "s:" + x, true
+	case c04Int:
+		return fmt.Sprintf("i:%d", x.V), true
+	case bool:
+		return fmt.Sprint(x), true
+	}
+	return "", false
+}
+
+// c04Explore runs `run` once per path: run is given a decide function for
+// branches whose condition stays symbolic; the first time a decision point is
+// met it is taken as true and the alternative is scheduled. Stops after max paths.
+func c04Explore(max int, run func(decide func(*c04T) (bool, bool))) (paths int, truncated bool) {
+	pending := [][]bool{{}}
+	for len(pending) > 0 {
+		if paths >= max {
+			return paths, true
+		}
+		script := pending[len(pending)-1]
+		pending = pending[:len(pending)-1]
+		var taken []bool
+		pos := 0
+		run(func(*c04T) (bool, bool) {
+			v := true
+			if pos < len(script) {
+				v = script[pos]
+			} else {
+				alt := append(append([]bool(nil), taken...), false)
+				pending = append(pending, alt)
+			}
+			taken = append(taken, v)
+			pos++
+			return v, true
+		})
+		paths++
+	}
+	return paths, false
+}
+
+// RunInit evaluates the package initialiser of pkg tolerantly and keeps the
+// resulting package-level variables in ev.GlobalCells.
+func (ev *c04Eval) RunInit(pkg *ssa.Package) error {
+	if ev.GlobalCells == nil {
+		ev.GlobalCells = map[*ssa.Global]*c04Cell{}
+	}
+	for _, m := range pkg.Members {
+		if g, ok := m.(*ssa.Global); ok {
+			if _, done := ev.GlobalCells[g]; !done {
+				ev.GlobalCells[g] = &c04Cell{V: c04Zero(deref1(g.Type()))}
+			}
+		}
+	}
+	init := pkg.Func("init")
+	if init == nil {
+		return nil
+	}
+	save := ev.Tolerant
+	ev.Tolerant = true
+	defer func() { ev.Tolerant = save }()
+	_, err := ev.Run(init, nil)
+	return err
 }
